@@ -153,6 +153,18 @@ func (b *bufRun) allReads(buf *commit.Buffer, blocks []int) {
 	}
 	defer os.Remove(f.Name())
 	lg := commit.Open(f)
+	// (a transaction's commit for a block carries every buffer of the transaction - also those of columns it wrote in
+	// other blocks only: commits for blocks this buffer has nothing for must read back as nothing)
+	present := map[int]bool{}
+	for _, blk := range blocks {
+		present[blk] = true
+	}
+	blocks = append([]int{}, blocks...)
+	for _, cand := range []int{0, 1, 3} {
+		if !present[cand] && len(blocks) < 6 {
+			blocks = append(blocks, cand)
+		}
+	}
 	for i, blk := range blocks {
 		cm := commit.Commit{ID: uint64(100 + i), Chunk: commit.Chunk(blk), Updates: []*commit.Buffer{buf}}
 		var cb bytes.Buffer
